@@ -442,6 +442,20 @@ func (ft *FT) localResolver(at *ssa.BasicBlock, atHead bool, shadow map[ssa.Valu
 						consider(cand{v: x.X, isAddr: true, depth: domDepth(db), idx: idx, obj: x.Object()})
 						continue
 					}
+					// a use recorded as a load from the variable's cell (*alloc, *freevar: a variable captured by a
+					// closure): the variable lives in that cell
+					if u, ok := x.X.(*ssa.UnOp); ok && u.Op == token.MUL {
+						switch a := u.X.(type) {
+						case *ssa.FreeVar:
+							cp := cand{v: a, isAddr: true, depth: 0, idx: -1, obj: x.Object()}
+							addrOf[x.Object()] = &cp
+						case *ssa.Alloc:
+							if visible(a.Block()) {
+								cp := cand{v: a, isAddr: true, depth: domDepth(a.Block()), idx: indexInBlock(a), obj: x.Object()}
+								addrOf[x.Object()] = &cp
+							}
+						}
+					}
 					if db == at && atHead {
 						if _, ok := shadow[x.X]; ok {
 							consider(cand{v: x.X, depth: domDepth(db), idx: idx, inHead: true, obj: x.Object()})
